@@ -33,3 +33,26 @@ ENTRY int verif_set_lon_partial(const char* s, int* consumed, int* out) {
     osmium::Location l; const char* p = s;
     try { l.set_lon_partial(&p); *out = l.x(); *consumed = static_cast<int>(p - s); return 0; } catch (const osmium::invalid_location&) { return 1; }
 }
+
+// ---- timestamps
+// rc 0: *out = seconds since epoch as time_t, *consumed = bytes consumed; 1: std::invalid_argument
+ENTRY int verif_parse_timestamp(const char* s, long* out, int* consumed) {
+    const char* p = s;
+    try { *out = static_cast<long>(osmium::detail::parse_timestamp(&p)); *consumed = static_cast<int>(p - s); return 0; }
+    catch (const std::invalid_argument&) { return 1; }
+}
+
+// ISO text of a timestamp (always formatted, also for 0); returns the length
+ENTRY int verif_iso(unsigned t, char* out, unsigned cap) {
+    const std::string s = osmium::Timestamp{t}.to_iso_all();
+    if (s.size() + 1 > cap) return -1;
+    std::memcpy(out, s.c_str(), s.size() + 1);
+    return static_cast<int>(s.size());
+}
+
+// Timestamp(const char*) -> uint32 and back through to_iso(): used for the unset timestamp
+ENTRY int verif_iso_unset(char* out) {
+    const std::string s = osmium::Timestamp{}.to_iso();
+    std::memcpy(out, s.c_str(), s.size() + 1);
+    return static_cast<int>(s.size());
+}
